@@ -22,6 +22,53 @@ def same(a, b):
             and a.url == b.url and a.marker == b.marker and str(a.marker) == str(b.marker))
 
 
+# ---- behaviour of a requirement's own parts (observes C08_equal_requirements_sets_alike / _markers_alike on the real objects) ----
+CANDS = ["0", "0.9", "1", "1.0", "1.0.0", "1.0a1", "1.0rc1", "1.0.dev1", "1.0.post1", "1.0+local", "1.1", "1.5", "2", "2.0", "2.0.1", "2.7.3",
+         "3", "3.0", "7.0", "7.0.1", "7.1", "99.99.99", "1!0.5", "2!1.0"]
+ENVS = [{"os_name": "posix", "sys_platform": "linux", "platform_machine": "x86_64", "platform_python_implementation": "CPython",
+         "platform_release": "5.10.0", "platform_system": "Linux", "platform_version": "#1 SMP", "python_version": "3.8",
+         "python_full_version": "3.8.10", "implementation_name": "cpython", "implementation_version": "3.8.10", "extra": "x"},
+        {"os_name": "nt", "sys_platform": "win32", "platform_machine": "AMD64", "platform_python_implementation": "PyPy",
+         "platform_release": "10", "platform_system": "Windows", "platform_version": "10.0.19041", "python_version": "2.7",
+         "python_full_version": "2.7.18", "implementation_name": "pypy", "implementation_version": "7.3.1", "extra": "foo-bar"},
+        {}]
+
+
+def parsable(v):
+    from packaging.version import Version, InvalidVersion
+    try: Version(v); return True
+    except InvalidVersion: return False
+
+
+def own_versions(r):
+    out = []
+    for sp in r.specifier:
+        v = sp.version[:-2] if sp.version.endswith(".*") else sp.version
+        if parsable(v): out.append(v)
+    return out
+
+
+def set_behaviour(ss, cands):
+    out = []
+    for v in cands:
+        for pre in (None, True, False):
+            try: out.append(ss.contains(v, prereleases=pre))
+            except Exception as e: out.append(type(e).__name__)
+    for pre in (None, True, False):
+        try: out.append([str(x) for x in ss.filter(cands, prereleases=pre)])
+        except Exception as e: out.append(type(e).__name__)
+    out.append(ss.prereleases)
+    return out
+
+
+def marker_behaviour(m):
+    out = []
+    for env in ENVS:
+        try: out.append(m.evaluate(dict(env)))
+        except Exception as e: out.append(type(e).__name__)
+    return out
+
+
 def observe(cmd, args):
     if cmd == "r.parse":
         r = parse(args[0])
@@ -102,6 +149,12 @@ def observe(cmd, args):
         if got and len({a, b}) != 1: return "equal but do not collapse in a set"
         if got and (canonicalize_name(a.name) != canonicalize_name(b.name) or a.extras != b.extras or a.specifier != b.specifier or a.url != b.url or a.marker != b.marker):
             return "equal but parts differ"
+        if got:
+            # equal requirements behave alike through their own parts: .specifier contains / filters / reports prereleases alike on a
+            # battery (fixed versions + the versions the two requirements mention), .marker evaluates alike in three environments
+            cands = CANDS + sorted(set(own_versions(a) + own_versions(b)))
+            if set_behaviour(a.specifier, cands) != set_behaviour(b.specifier, cands): return "equal but the specifier sets behave differently"
+            if a.marker is not None and marker_behaviour(a.marker) != marker_behaviour(b.marker): return "equal but the markers evaluate differently"
         return "ok"
     if cmd == "law.r.triple":
         rs = [parse(x) for x in args]
